@@ -68,7 +68,7 @@ def main(chk):
     selftest = c02.faulty_selftest(chk, SELFTEST_GROUP, 2, ["none", "s1s2", "n_s1"], cap, faults=("stale_params", "key_ignores_mapflag"))
     if "key_ignores_mapflag" not in selftest:
         chk.machinery("vacuous: map-flag self-test did not run")
-    plans = pick_plans(names, rng, 6 if chk.quick else 24, depth)
+    plans = pick_plans(names, rng, 6 if chk.quick else 14, depth)
     G, graphs, runs, walks, extra, plan, steps, mism = c02.graph_phase(chk, plans, cap, vals, table, rng, 200 if chk.quick else 2000, depth)
     cov = c02.edge_stats(G)
     for need in ("cached/hit", "cached/miss", "cached/nokey", "hit_other_map", "evicting", "error/InvalidRequestError"):
